@@ -35,8 +35,9 @@
 //!   * end-to-end: queries answered with a referral, a CNAME chain or REFUSED; responses in which
 //!     hickory's server already deviates from RFC 1034/4592 (C10's findings) are not judged for
 //!     completeness (they are judged for soundness: accepting them as Secure is reported); an
-//!     `Insecure` verdict caused by an Opt-Out span counts as accepted; names with an asterisk
-//!     label that do not exist (hickory's wildcard lookup for them is C10's subject).
+//!     `Insecure` verdict caused by an Opt-Out span counts as accepted; under opt-out, names whose
+//!     closest encloser (or which themselves) are empty non-terminals without NSEC3 RR (RFC 5155
+//!     §7.1 lets the signer omit them; no §8 proof exists then).
 
 mod denial;
 mod e2e;
@@ -253,7 +254,7 @@ fn expanded_answers(q: &Name, t: u16, labels: usize, apex: &Name) -> Vec<Record>
     vec![rr, sig]
 }
 
-fn call_h2(apex: &Name, c: &H2Case) -> Result<Proof, mon::PanicRecord> {
+pub fn call_h2(apex: &Name, c: &H2Case) -> Result<Proof, mon::PanicRecord> {
     let query = Query::new(hname(&c.q), RecordType::from(c.t));
     let soa = hname(apex);
     let answers = match c.claim {
@@ -478,17 +479,17 @@ pub fn judge(env: &mut Env, c: &H2Case, verdict: Proof, notes: &mut Vec<String>)
     match &truth {
         Truth::False(reason) => {
             out.push(Finding {
-                rule: "secure-claim-false",
-                sig: format!("{}|{reason}{apexf}|{}|validator", c.claim.as_str(), pc),
-                expected: json!({"verdict": "not Secure", "why": format!("the claim is false in the zone: {reason}")}),
+                rule: "secure-unjustified",
+                sig: format!("{}|other:claim-false:{reason}{apexf}|{}|validator", c.claim.as_str(), pc),
+                expected: json!({"verdict": "not Secure", "clause": "claim-false", "why": format!("the claim is false in the zone: {reason}")}),
             });
             return out;
         }
         Truth::NotEntailable(reason) => {
             out.push(Finding {
-                rule: "secure-claim-unentailable",
-                sig: format!("{}|{reason}|{}|validator", c.claim.as_str(), pc),
-                expected: json!({"verdict": "not Secure", "why": format!("records of this zone cannot prove anything here: {reason} (RFC 5155 8.3/8.5, RFC 6840 4.1)")}),
+                rule: "secure-unjustified",
+                sig: format!("{}|other:claim-unentailable:{reason}|{}|validator", c.claim.as_str(), pc),
+                expected: json!({"verdict": "not Secure", "clause": "claim-unentailable", "why": format!("records of this zone cannot prove anything here: {reason} (RFC 5155 8.3/8.5, RFC 6840 4.1)")}),
             });
             return out;
         }
@@ -529,31 +530,73 @@ pub fn judge(env: &mut Env, c: &H2Case, verdict: Proof, notes: &mut Vec<String>)
     }
     let feature = match &best {
         Some(r) => {
-            let mut f = format!("{}:missing={}", r.sub, r.missing());
-            if r.nc_optout {
-                f.push_str(",nc-optout");
-            }
-            if r.qname_matched {
-                f.push_str(",qname-matched");
-            }
-            if c.q == env.z.apex {
-                f.push_str(",apex");
-            }
             if truth == Truth::True && r.complete() && !r.nc_optout {
                 // the reference proof is complete and yet a counter-model exists: the two halves
                 // of the oracle disagree — never report this as a finding of hickory
                 notes.push("oracle-inconsistency".into());
+            }
+            let mut f = format!("{}:missing={}", r.sub, r.missing());
+            if r.nc_optout {
+                f.push_str(",nc-optout");
             }
             f
         }
         None => format!("ambiguous:{}", truth.reason()),
     };
     out.push(Finding {
-        rule: "secure-not-entailed",
-        sig: format!("{}|{}|{}|validator", c.claim.as_str(), feature, pc),
-        expected: json!({"verdict": "not Secure", "why": "a zone exists in which every presented record (of each parameter group) is genuine and the claim is false", "counter_models": witnesses}),
+        rule: "secure-unjustified",
+        sig: format!("{}|other:not-entailed:{feature}{apexf}|{}|validator", c.claim.as_str(), pc),
+        expected: json!({"verdict": "not Secure", "clause": "not-entailed", "why": "a zone exists in which every presented record (of each parameter group) is genuine and the claim is false", "counter_models": witnesses}),
     });
     out
+}
+
+/// Structural cause class of an unjustified Secure verdict on a (minimal) case — the signature
+/// discriminator. Priority-ordered predicates over what the set presents (never over hickory's
+/// internals); `None` = none applies, the detailed signature from `judge` is kept.
+///  0 wraparound-dependent   verdict changes when the wrap-around record is split (differential)
+///  1 apex-without-match     NODATA for the apex without a record matching it
+///  2 answer-with-qname-match  wildcard-expanded answer, yet a record matches the query name
+///  3 nodata-at-delegation   NODATA (not DS) from a matching record that is the parent side of a cut
+///  4 ds-optout-cover-only   QTYPE DS: an Opt-Out record covers the query name, no closest-encloser proof
+///  5 encloser-is-delegation the matched closest encloser has NS without SOA
+///  6 optout-next-closer     the next closer name is covered by an Opt-Out record (claim not DS-NODATA)
+pub fn cause_of(env: &mut Env, c: &H2Case) -> Option<&'static str> {
+    if wrap_dependent(&env.z.apex, c) {
+        return Some("wraparound-dependent");
+    }
+    // the largest in-zone group
+    let mut groups: BTreeMap<HashParams, Vec<&N3>> = BTreeMap::new();
+    for r in &c.s {
+        if r.zone == env.z.apex {
+            groups.entry(r.hp.clone()).or_default().push(&r.n3);
+        }
+    }
+    let (hp, g) = groups.into_iter().max_by_key(|(_, g)| g.len())?;
+    let al = env.z.apex.len();
+    let hs = env.hasher(&hp);
+    let p = denial::presented(&c.q, &c.claim, al, &g, hs);
+    let nodata = c.claim == Claim::NoData;
+    let expansion = matches!(c.claim, Claim::Expansion { .. });
+    if nodata && c.q == env.z.apex && !p.q_matched {
+        return Some("apex-without-match");
+    }
+    if expansion && p.q_matched {
+        return Some("answer-with-qname-match");
+    }
+    if nodata && p.q_matched && p.q_deleg && c.t != ty::DS {
+        return Some("nodata-at-delegation");
+    }
+    if c.t == ty::DS && (nodata || expansion) && !p.q_matched && p.q_cover == Some(true) && !(p.ce_matched && p.nc_cover.is_some()) {
+        return Some("ds-optout-cover-only");
+    }
+    if !expansion && p.ce_matched && p.ce_deleg {
+        return Some("encloser-is-delegation");
+    }
+    if p.nc_cover == Some(true) && !(nodata && c.t == ty::DS) {
+        return Some("optout-next-closer");
+    }
+    None
 }
 
 // ---------------------------------------------------------------------------------------------
@@ -569,7 +612,7 @@ pub struct Runner<'r> {
 /// Does the Secure verdict depend on how the validator treats the wrap-around record (owner hash
 /// >= next hash)? Present that record as two non-wrapping records with the same coverage —
 /// (owner, ff..ff) and (00..00, next) — and ask again.
-fn wrap_dependent(apex: &Name, c: &H2Case) -> bool {
+pub fn wrap_dependent(apex: &Name, c: &H2Case) -> bool {
     if !c.s.iter().any(|r| r.n3.hash >= r.n3.next) {
         return false;
     }
@@ -735,15 +778,22 @@ impl<'r> Runner<'r> {
                 self.rep.count("minimised");
             }
             let mut observed = json!({"verdict": vn, "reduced_from_records": c.s.len()});
-            if wrap_dependent(&z.apex, &cm) {
-                // differential discriminator: the verdict is no longer Secure when the chain's
-                // last (wrap-around) record is presented as the two equivalent non-wrapping spans
-                let coarse = {
+            if fm.rule == "secure-unjustified" || fm.rule == "foreign-zone-secure" {
+                if let Some(cause) = cause_of(env, &cm) {
                     let pc = pclass(env, &cm);
-                    if pc.starts_with("mixed") { "mixed".to_string() } else { pc }
-                };
-                fm.sig = format!("{}|wrap-around-dependent|{}|validator", cm.claim.as_str(), coarse);
-                observed["verdict_with_wraparound_record_split_into_two_plain_spans"] = json!("not Secure");
+                    if cause == "wraparound-dependent" {
+                        // differential discriminator: the verdict is no longer Secure when the
+                        // chain's last (wrap-around) record is presented as the two equivalent
+                        // non-wrapping spans
+                        let coarse = if pc.starts_with("mixed") { "mixed".to_string() } else { pc };
+                        fm.rule = "secure-unjustified";
+                        fm.sig = format!("{}|{cause}|{coarse}|validator", cm.claim.as_str());
+                        observed["verdict_with_wraparound_record_split_into_two_plain_spans"] = json!("not Secure");
+                    } else if fm.rule == "secure-unjustified" {
+                        fm.sig = format!("{}|{cause}|{pc}|validator", cm.claim.as_str());
+                    }
+                    observed["cause_class"] = json!(cause);
+                }
             }
             self.report(fm.rule, &fm.sig, || cm.to_json(z, &p), fm.expected, observed);
         }
@@ -822,11 +872,10 @@ fn relevant(chain: &[Rec], names: &[Name], hs: &mut Hasher) -> Vec<usize> {
 
 fn claims_for(apex: &Name, q: &Name, t: u16) -> Vec<Claim> {
     let mut v = vec![Claim::NoData, Claim::NxDomain];
-    if matches!(t, x if x == ty::A || x == ty::TXT || x == ty::MX || x == ty::CNAME) {
-        for l in apex.len()..q.len() {
-            v.push(Claim::Expansion { labels: l });
-        }
+    for l in apex.len()..q.len() {
+        v.push(Claim::Expansion { labels: l });
     }
+    let _ = t;
     v
 }
 
@@ -1117,6 +1166,75 @@ fn probe_unrepresentable(rep: &mut Reporter) {
     }
 }
 
+/// `craft=FILE`: {"zone_lines": ["a.z. A", "b.z. NS", ...] (SOA/NS at the apex are added),
+/// "params": {..}, "query": {"qname","qtype"}, "rcode": "NOERROR"|"NXDOMAIN",
+/// "answer_rrsig_labels": null|n, "soa_present": bool, "limits": [s,h],
+/// "records_of": ["a.z.", ...], "other_params": {..}|null, "other_records_of": [...],
+/// "rename_zone": null|"y."}
+fn craft(r: &mut Runner, v: &Value) {
+    let apex = refzone::default_apex();
+    let mut z = Zone::new(&apex);
+    z.add(&apex, ty::SOA, refzone::rd_soa(&refzone::name("ns.y."), &refzone::name("h.z."), 10, 3600, 600, 86400, 300));
+    z.add(&apex, ty::NS, refzone::rd_name(&refzone::name("ns.y.")));
+    for l in v["zone_lines"].as_array().map(|a| a.as_slice()).unwrap_or(&[]) {
+        let mut it = l.as_str().unwrap_or("").split_whitespace();
+        let (Some(o), Some(t)) = (it.next(), it.next()) else { continue };
+        let t = refzone::type_code(t).expect("type");
+        z.add(&refzone::name(o), t, denial::filler_rdata(t, &apex));
+    }
+    let p = ZParams::from_json(&v["params"]);
+    let mut env = Env::new(&z, &p, 100_000);
+    let names = |k: &str| -> Vec<Name> { v[k].as_array().map(|a| a.iter().filter_map(|x| x.as_str()).map(refzone::name).collect()).unwrap_or_default() };
+    let mut s: Vec<Rec> = Vec::new();
+    let chain = env.chain(&apex, &p.hp, p.opt_out, "genuine");
+    for n in names("records_of") {
+        let rec = chain.iter().find(|r| r.n3.of == n).unwrap_or_else(|| panic!("{} owns no NSEC3 RR in this zone", refzone::show(&n)));
+        s.push(rec.clone());
+    }
+    if v["other_params"].is_object() {
+        let p2 = ZParams::from_json(&v["other_params"]);
+        let tag = match (p2.hp.salt != p.hp.salt, p2.hp.iterations != p.hp.iterations) {
+            (true, true) => "salt+iter",
+            (true, false) => "salt",
+            _ => "iter",
+        };
+        let c2 = env.chain(&apex, &p2.hp, p2.opt_out, tag);
+        for n in names("other_records_of") {
+            s.push(c2.iter().find(|r| r.n3.of == n).expect("other_records_of name").clone());
+        }
+    }
+    if let Some(zn) = v["rename_zone"].as_str() {
+        let zone2 = refzone::name(zn);
+        let tag = if refzone::is_subdomain(&zone2, &apex) { "owner:child" } else if zone2.is_empty() { "owner:parent" } else { "owner:sibling" };
+        s = s.iter().map(|x| x.renamed(&zone2, tag)).collect();
+    }
+    let mut c = serde_json::Map::new();
+    for k in ["query", "rcode", "answer_rrsig_labels", "soa_present", "limits"] {
+        c.insert(k.to_string(), v[k].clone());
+    }
+    c.insert("zone".into(), z.to_json());
+    c.insert("params".into(), p.to_json());
+    c.insert("nsec3".into(), Value::Array(s.iter().map(|x| x.to_json()).collect()));
+    let (_, _, case) = H2Case::from_json(&Value::Object(c)).expect("craft case");
+    let verdict = r.run_h2(&mut env, &case);
+    println!("CRAFT verdict={:?} records={}", verdict, case.s.len());
+    for x in &case.s {
+        println!("  {}", x.to_json());
+    }
+}
+
+/// more insecure delegations for opt-out zones (the generator makes them rarely)
+fn add_insecure_delegations(rng: &mut Rng, z: &mut Zone) {
+    let uni = refzone::universe(&z.apex, 3);
+    for _ in 0..rng.urange(1, 3) {
+        let n = rng.pick(&uni).clone();
+        if refzone::is_wildcard(&n) || z.node(&n).is_some() || z.occluded(&n) {
+            continue;
+        }
+        z.add(&n, ty::NS, refzone::rd_name(&refzone::name("ns.y.")));
+    }
+}
+
 fn gen_cfg(rng: &mut Rng, small: bool) -> refzone::GenCfg {
     let mut cfg = refzone::GenCfg::default();
     cfg.long_chain_pct = 0;
@@ -1136,6 +1254,17 @@ fn main() {
     refzone::selftest();
     denial::selftest();
 
+    if let Some(path) = ctx.extra.get("craft") {
+        // tooling, not part of any verdict: build a case from a hand-written zone and the names
+        // whose NSEC3 RRs are to be presented; the oracle then runs as usual and a violation file
+        // (if any) lands in --out. See `craft()`.
+        let txt = std::fs::read_to_string(path).expect("craft file");
+        let v: Value = serde_json::from_str(&txt).expect("craft json");
+        let mut r = Runner::new(&mut rep);
+        craft(&mut r, &v);
+        rep.replay_finish();
+    }
+
     if let Some(w) = ctx.replay_case() {
         let c = &w["case"];
         let mut r = Runner::new(&mut rep);
@@ -1146,6 +1275,16 @@ fn main() {
                     std::process::exit(3)
                 };
                 let mut env = Env::new(&z, &p, 100_000);
+                // a witness is only meaningful if its in-zone records are genuine for its zone
+                for rec in &case.s {
+                    if rec.zone == z.apex && !rec.tag.starts_with("owner:") {
+                        let chain = env.chain(&z.apex, &rec.hp, rec.n3.opt_out, "x");
+                        if !chain.iter().any(|g| g.n3.fp() == rec.n3.fp()) {
+                            eprintln!("witness is inconsistent: record {} is not in N3(zone) under its parameters", rec.to_json()["owner"]);
+                            std::process::exit(3)
+                        }
+                    }
+                }
                 r.run_h2(&mut env, &case);
             }
             "e2e" | "chain" => {
@@ -1233,8 +1372,11 @@ fn main() {
     for zi in 0..n_zones {
         let small = zi % 4 == 0;
         let cfg = gen_cfg(&mut rng, small);
-        let z = refzone::gen_zone(&mut rng, &cfg);
+        let mut z = refzone::gen_zone(&mut rng, &cfg);
         let p = gen_params(&mut rng);
+        if p.opt_out && rng.chance(2, 3) {
+            add_insecure_delegations(&mut rng, &mut z);
+        }
         sweep_zone(&mut r, &mut rng, &z, &p, &budget, max_double, &qnames, zi);
         // limits: this zone under its own parameters, and every fourth zone re-parameterised with
         // iteration counts around the default limits (100 / 500)
